@@ -25,12 +25,14 @@ Spec format (plain JSON):
               out of a wider frame, sharing its index object), 'fortran' (array = transposed / row view of a parent, pandas built on it without a copy),
               'readonly' (array not writeable, pandas built on it without a copy). The objects they were cut from are snapshotted and compared as well.
     ix      : further fields: type 'float' (labels = value / 4), 'unit' 'h' | 's' | 'us' and 'tod' (seconds of the day of the first label) for 'dt';
-              negative steps give a decreasing / unsorted index
+              negative steps give a decreasing / unsorted index; 'tz' (type 'dt'): the same wall-clock readings localised in that zone (constant non-zero UTC offset)
 
 Sub-check session: {cols, dim, ix, colnames, view, kinds, calls: [...]}: every kind's object is built ONCE and the calls are made on it one after the other;
 a call is {fn: 'fillna', methods, raw, bare, container, limit, limraw, axis0, style, share} or {fn: 'nona', edge, bare, style}, optionally with its own 'kinds';
 share = j passes the very container object that call j passed (equal content by construction). order: 'by_object' = all calls on one object, then
-all calls on the next; 'by_call' = every call on all objects before the next call.
+all calls on the next; 'by_call' = every call on all objects before the next call. Between two calls {fn: 'edit', row, col, value}: the caller writes that cell
+of every operand object in place (operands that are not views); the later calls are judged by the edited cells. twin: 'after' | 'before' (view 'strided' / 'fortran'):
+every call on the array is also made on a second view of the same parent buffer - same start address, shape and dtype, other strides, hence other cells.
 
 Oracle: a scalar NaN-run walker per column over (original position, cells) rows, written from the statement; it never
 calls pandas fill functions. Every kind is compared cell by cell with the model (NaN positions exactly, other cells
@@ -69,6 +71,17 @@ ASSUMPTIONS = [
     'sub-check session: a result handed out by an earlier call must keep its values while later calls run on the same operand (it is the value the caller holds; '
     'a result that is the operand itself or a view of it stays put because the operand does). Results are NOT written to by the check (df_fillna(arr, "fnna") may '
     'legitimately be a view of arr)',
+    'zone-aware labels (class 21): the fourth object may carry a DatetimeIndex localised in Asia/Tokyo, Etc/GMT+5 or Asia/Kolkata (constant offsets: no wall-clock reading is '
+    'missing or doubled); surviving rows must carry their own labels AND the index of the result must still have the dtype of the operand\'s index (same zone)',
+    'values closer than the tolerances of np.isclose (class 27): one vector in eight draws its values from {1, 1+1e-9, 1-1e-9, 1+1e-7}, {100.25, 100.2500001, 100.25000001} or '
+    '{1e-9, -1e-9, 2e-9}; the oracle compares bit for bit as before ("never changes a non-NaN cell")',
+    'sub-check session, in-place edits (class 28): between two calls the CALLER may write one cell of each operand (only operands that are not views of something else: writing '
+    'through a column cut out of a frame is a question about pandas, not about df_fillna); the calls after the edit are judged by the edited content; results handed out before '
+    'the edit are compared with their snapshots just before it and are then let go (method None returns the operand itself, fnna a view of it: they rightly show the write)',
+    'sub-check session, twin views (class 25): in view cases the array calls are also made on a second view of the same parent that starts at the same address with the same '
+    'shape and dtype but other strides; it is judged by the cells it holds (read off the view before the calls), and the shared parent must stay bit-identical',
+    'class 22 (answers outside the domain), 23 (simultaneous substitutions), 24 (compiled patterns / partials) do not apply: df_fillna / nona tabulate nothing, take no '
+    'mappings and no callables; class 26 (explicit defaults) is covered by the labels explicit_defaults / style=* / nmethods=0 of the earlier pass',
     'identity of the result is not asserted: df_fillna returns the argument itself for method None / [] (documented) and for ffill_na / ffill_0 on a series '
     'without a valid observation; only "values as specified, argument unchanged by the call" is demanded (no-op inputs carry the labels no_nan / noop_with_method)',
     'domain restriction (K5): edge=-1 is generated for RangeIndex / DatetimeIndex objects only. edge is documented in the nona docstring, not in the statement, and on an '
@@ -137,6 +150,11 @@ def _same_cell(a, b):
 
 def _is_num(m):
     return isinstance(m, (int, float)) and not isinstance(m, bool)
+
+
+def _close(a, b):
+    """np.isclose with its default tolerances, for two finite floats (symmetrised: either one as the reference)"""
+    return abs(a - b) <= 1e-8 + 1e-5 * min(abs(a), abs(b))
 
 
 # ----------------------------------------------------------------------------- reference model
@@ -382,6 +400,7 @@ def _build(cols, dim, kind, spec=None):
 
 
 _LABELS = {}
+_ZONES = ('Asia/Tokyo', 'Etc/GMT+5', 'Asia/Kolkata')           # +09:00, -05:00, +05:30, none of them with daylight saving
 _UNIT = {'D': 86400 * 10 ** 6, 'h': 3600 * 10 ** 6, 's': 10 ** 6, 'us': 1}
 
 
@@ -390,7 +409,7 @@ def _labels(kind, n, spec=None):
     if kind == 'range':
         return list(range(n))
     ix = None if kind == 'dt' else spec['ix']
-    key = (kind, n) if kind == 'dt' else (ix['type'], ix['base'], tuple(ix['pattern']), ix.get('unit'), ix.get('tod'), n)
+    key = (kind, n) if kind == 'dt' else (ix['type'], ix['base'], tuple(ix['pattern']), ix.get('unit'), ix.get('tod'), ix.get('tz'), n)
     if key not in _LABELS:
         if len(_LABELS) > 500:
             _LABELS.clear()
@@ -406,6 +425,11 @@ def _labels(kind, n, spec=None):
             t0 = mkdt(D0 + ix['base'], sec=ix.get('tod') or 0)
             us = _UNIT[ix.get('unit', 'D')]
             _LABELS[key] = [pd.Timestamp(t0 + datetime.timedelta(microseconds=v * us)) for v in _ix_values(dict(ix, base=0), n)]
+        if ix is not None and ix.get('tz'):
+            if ix['type'] != 'dt' or ix['tz'] not in _ZONES:
+                raise ValueError('tz %r' % (ix['tz'],))
+            # the same wall-clock readings in a zone with a constant non-zero UTC offset (no DST: every reading exists exactly once)
+            _LABELS[key] = [t.tz_localize(ix['tz']) for t in _LABELS[key]]
     return list(_LABELS[key])
 
 
@@ -541,9 +565,16 @@ def _check_object(what, x, kind, res, dim, ncols, variants, n, spec=None):
         lab = _labels(kind, n, spec)
         exp_index = [lab[p] for p in pos]
         check(list(res.index) == exp_index, '%s: surviving rows carry index %s instead of their own labels %s', what, list(res.index), exp_index)
+        _check_zone(what, x, res)
         if dim == 2:
             check(list(res.columns) == list(x.columns), '%s: columns changed from %s to %s', what, list(x.columns), list(res.columns))
     return got
+
+
+def _check_zone(what, x, res):
+    """class 21: the labels of a zone-aware index are instants IN a zone; the result must still carry that zone (equal instants alone compare equal above)"""
+    if getattr(x.index, 'tz', None) is not None:
+        check(res.index.dtype == x.index.dtype, '%s: the operand has a zone-aware index (%s), the index of the result is %s', what, x.index.dtype, res.index.dtype)
 
 
 class _Lazy(object):
@@ -628,6 +659,13 @@ def _pattern_classes(cols, dim):
             cls.append('allnan_row_2d')
         if any(0 < sum(_isnan(c[i]) for c in cols) < len(cols) for i in range(n)):
             cls.append('partial_nan_row_2d')
+    if n < 64:                                                # (long columns hold start, start+1, ...: never close)
+        for c in cols:
+            vals = sorted(set(v for v in c if not _isnan(v) and abs(v) != float('inf')))
+            if len(vals) >= 2 and _close(vals[0], vals[-1]):
+                cls.append('near_equal_column')               # class 27: >= 2 distinct values, all of them equal to a "robust" comparison
+                if any(_isnan(v) for v in c):
+                    cls.append('near_equal_column_with_nan')
     if n == 1:
         cls.append('rows=1')
     if n >= 64:
@@ -667,6 +705,8 @@ def _object_classes(spec, dim):
                     cls.append('ix_microseconds')
             if ix['base'] in _BOUNDARY_DAYS and n:
                 cls.append('ix_starts_on_boundary_day')       # 28 / 29 Feb, 30 / 31st, 31 Dec, 1 Jan
+            if ix.get('tz'):
+                cls.append('ix_zone_aware')                   # class 21: every label in one zone with a non-zero UTC offset
     if spec.get('view'):
         cls.append('view_input')
         cls.append('view=' + spec['view'])
@@ -695,15 +735,15 @@ def _object_classes(spec, dim):
 class _Ctx(object):
     """the operand of a case: cells, shape and (sub-check session) the objects built for it"""
 
-    def __init__(self, spec, keep=False):
+    def __init__(self, spec, keep=False, cols=None, objs=None):
         self.spec = spec
         self.dim = spec['dim']
-        self.cols = _spec_cols(spec)
+        self.cols = _spec_cols(spec) if cols is None else cols
         self.ncols = len(self.cols)
         self.n = len(self.cols[0])
         if any(len(c) != self.n for c in self.cols):
             raise ValueError('ragged spec')
-        self.objs = {} if keep else None
+        self.objs = objs if objs is not None else {} if keep else None
 
     def obj(self, kind):
         """(object, objects it shares memory with): built once per session, once per call otherwise"""
@@ -852,6 +892,18 @@ def _fillna_classes(ctx, c, r):
             cls.append('tail_fill_trailing_run>limit')
     if methods and methods[0] in TAILS and 'ends_valid_interior_nan' in pcls:
         cls.append('tail_fill_ends_valid')
+    if tail:
+        # class 29: the label of the last valid observation is 0 (falsy) on one of the objects - the only valid row of a column is the first one of
+        # an array / RangeIndex object, or the integer / float label there is 0
+        kinds = c.get('kinds') or ctx.spec.get('kinds') or ()
+        lab = _labels('ix', n, ctx.spec) if 'ix' in kinds and ctx.spec['ix']['type'] != 'dt' else None
+        for col in cols:
+            valid = [i for i, v in enumerate(col) if not _isnan(v)]
+            if valid and valid[-1] < n - 1 and ((valid[-1] == 0 and set(kinds) & {'arr', 'range'}) or (lab is not None and lab[valid[-1]] == 0)):
+                cls.append('last_valid_label_0')
+                if 'ffill_0' in methods:
+                    cls.append('last_valid_label_0:ffill_0')
+                break
     if rowdrop:
         cls.append('allnan_row_dropped_2d')
     if len(pos) < n:
@@ -948,25 +1000,89 @@ def run_nona(spec):
 
 # ----------------------------------------------------------------------------- sub-check session
 
+def _twin_of(ctx):
+    """
+    class 25: a second array that starts at the same address as the 'arr' operand of a view case, with the same dtype and shape, but walks the shared
+    parent with other strides (a[1::2] vs a[1:1+n]; a block vs the transpose of the block) - so it holds OTHER cells. Returns (twin, its cells column by column)
+    """
+    a, parents = ctx.obj('arr')
+    parent, n, ncols, view = parents[0], ctx.n, ctx.ncols, ctx.spec.get('view')
+    if view == 'strided':
+        t = parent[1:1 + n] if ctx.dim == 1 else parent[:, 1:1 + ncols]
+    elif view == 'fortran':
+        t = parent.reshape(-1)[::2][:n] if ctx.dim == 1 else parent.reshape(-1)[:n * ncols].reshape(n, ncols)
+    else:
+        raise ValueError('a twin needs a strided / fortran view')
+    if t.shape != a.shape or t.dtype != a.dtype or (a.size and (t.__array_interface__['data'][0] != a.__array_interface__['data'][0] or t.base is None)):
+        raise RuntimeError('twin view not built as intended')
+    cells = [[float(v) for v in t]] if ctx.dim == 1 else [[float(v) for v in t[:, j]] for j in range(ncols)]
+    return t, parent, cells
+
+
+def _edited(cols, e):
+    out = [list(c) for c in cols]
+    out[e['col']][e['row']] = _cell(e['value'])
+    return out
+
+
+def _apply_edit(x, e, dim):
+    """the caller writes ONE cell of its own operand, in place"""
+    import numpy as np
+    v = _cell(e['value'])
+    if isinstance(x, np.ndarray):
+        if dim == 1:
+            x[e['row']] = v
+        else:
+            x[e['row'], e['col']] = v
+    elif dim == 1:
+        x.iloc[e['row']] = v
+    else:
+        x.iloc[e['row'], e['col']] = v
+
+
 def run_session(spec):
     """
     2-4 calls on ONE set of operand objects (state carried between calls must not show), method containers shared between calls where the spec says so;
     order 'by_object' (default): all calls on the first object, then all calls on the second ... (consecutive calls on one object: one-slot caches);
     order 'by_call': the first call on every object, then the second call on every object ... (state keyed by something weaker than the object).
-    Every call is judged by the single-call oracle from the spec's own (original) content, and at the end every result still holds what it held when returned
+    Every call is judged by the single-call oracle from the spec's own (original) content, and at the end every result still holds what it held when returned.
+    {fn: 'edit', row, col, value} between two calls (class 28): the caller writes that cell of every operand object in place; the calls after it are judged by
+    the edited content. twin (class 25, view cases): every call on the array is also made on a second view of the same buffer that starts at the same address
+    with the same shape and dtype but other strides ('after' / 'before' the call on the array), judged by the cells that view holds
     """
     ctx = _Ctx(spec, keep=True)
     calls = spec['calls']
-    if not 2 <= len(calls) <= 6:
+    ncalls = sum(1 for c in calls if c['fn'] != 'edit')
+    if not 2 <= ncalls <= 6:
         raise ValueError('a session has 2-6 calls')
     order = spec.get('order', 'by_object')
     if order not in ('by_object', 'by_call'):
         raise ValueError('order %r' % (order,))
-    # ---- the argument containers (one object per group of sharing calls) and the reference results
-    preps = []
+    twin = spec.get('twin')
+    if twin not in (None, 'after', 'before'):
+        raise ValueError('twin %r' % (twin,))
+    edits = [c for c in calls if c['fn'] == 'edit']
+    if edits and (spec.get('view') or calls[0]['fn'] == 'edit' or calls[-1]['fn'] == 'edit'):
+        raise ValueError('edits come between two calls, on operands that are not views')
+    ctx_t = None
+    if twin:
+        t, parent, tcells = _twin_of(ctx)
+        ctx_t = _Ctx(spec, cols=tcells, objs={'arr': (t, [parent])})
+    # ---- the argument containers (one object per group of sharing calls) and the reference results (by the content at the time of the call)
+    preps, preps_t, version = [], [], []
+    cur = ctx.cols
     for ci, c in enumerate(calls):
+        if c['fn'] == 'edit':
+            cur = _edited(cur, c)
+        version.append(cur)
+        ctx.cols = cur
+        if c['fn'] == 'edit':
+            preps.append(None)
+            preps_t.append(None)
+            continue
         if c['fn'] == 'nona':
             preps.append(_prep_nona(ctx, c))
+            preps_t.append(_prep_nona(ctx_t, c) if twin else None)
             continue
         if c['fn'] != 'fillna':
             raise ValueError('fn %r' % (c['fn'],))
@@ -979,29 +1095,78 @@ def run_session(spec):
         else:
             method = _method_arg(c)
         preps.append(_prep_fillna(ctx, c, method))
+        preps_t.append(_prep_fillna(ctx_t, c, method) if twin else None)
+    ctx.cols = version[0]
     # ---- the calls
-    kept = []
-    kinds_of = [c.get('kinds') or spec['kinds'] for c in calls]
+    kept = dict((kind, []) for kind in list(spec['kinds']) + ['twin'])
+    kinds_of = [spec['kinds'] if c['fn'] == 'edit' else c.get('kinds') or spec['kinds'] for c in calls]
     if order == 'by_call':
         seq = [(ci, kind) for ci in range(len(calls)) for kind in kinds_of[ci]]
     else:
         seq = [(ci, kind) for kind in spec['kinds'] for ci in range(len(calls)) if kind in kinds_of[ci]]
+
+    def still(kind):
+        for what, res, snap in kept[kind]:
+            check(_snap(res) == snap, '%s: the result it returned changed while later calls ran on the same argument: now %s', what, _Lazy2(_values_text, res))
+
     for ci, kind in seq:
-        (_one_nona if calls[ci]['fn'] == 'nona' else _one_fillna)(ctx, calls[ci], preps[ci], kind, kept)
+        c = calls[ci]
+        if c['fn'] == 'edit':
+            # results handed out so far are checked now: a result that is the operand or a view of it legitimately shows the caller's own write
+            still(kind)
+            kept[kind] = []
+            x = ctx.obj(kind)[0]
+            _apply_edit(x, c, ctx.dim)
+            now = [[float(v) for v in col] for col in ([x] if ctx.dim == 1 else [x[:, j] for j in range(ctx.ncols)])] if kind == 'arr' else \
+                  [[float(v) for v in x.values]] if ctx.dim == 1 else [[float(v) for v in x.values[:, j]] for j in range(ctx.ncols)]
+            if _diff(now, version[ci]) is not None:
+                raise RuntimeError('harness: the in-place edit did not arrive in the %s operand' % kind)
+            continue
+        one = _one_nona if c['fn'] == 'nona' else _one_fillna
+        if twin == 'before' and kind == 'arr':
+            one(ctx_t, c, preps_t[ci], 'arr', kept['twin'])
+        one(ctx, c, preps[ci], kind, kept[kind])
+        if twin == 'after' and kind == 'arr':
+            one(ctx_t, c, preps_t[ci], 'arr', kept['twin'])
     for r in preps:
-        _cross(r)
-    for what, res, snap in kept:
-        check(_snap(res) == snap, '%s: the result it returned changed while later calls ran on the same argument: now %s', what, _Lazy2(_values_text, res))
+        if r is not None:
+            _cross(r)
+    for kind in kept:
+        still(kind)
     # ---- classes
-    nts, cls = [], ['calls=%i' % len(calls), 'dim=%i' % ctx.dim, 'order=' + order] + _object_classes(spec, ctx.dim)
+    nts, cls = [], ['calls=%i' % ncalls, 'dim=%i' % ctx.dim, 'order=' + order] + _object_classes(spec, ctx.dim)
     pcls, info = _pattern_classes(ctx.cols, ctx.dim)
-    cls += [k for k in pcls if k in ('empty', 'all_nan', 'no_nan', 'rows>=64', 'allnan_row_2d')]
+    cls += [k for k in pcls if k in ('empty', 'all_nan', 'no_nan', 'rows>=64', 'allnan_row_2d', 'near_equal_column')]
+    if twin:
+        cls += ['twin_view', 'twin_view=' + spec['view']]
+        if _diff(ctx_t.cols, ctx.cols) is not None:
+            cls.append('twin_view_other_cells')               # what an (address, shape, dtype)-keyed memo would get wrong
     prev = None
     limits = set()
+    edited = False
     for ci, c in enumerate(calls):
+        ctx.cols = version[ci]
+        if c['fn'] == 'edit':
+            edited = True
+            cls.append('edit_between_calls')
+            before, after = version[ci - 1][c['col']], version[ci][c['col']]
+            lv = [max([i for i, v in enumerate(col) if not _isnan(v)] + [-1]) for col in (before, after)]
+            if _same_cell(before[c['row']], after[c['row']]):
+                cls.append('edit_writes_same_value')
+            if lv[0] != lv[1]:
+                cls.append('edit_moves_last_valid')
+                if any(k['fn'] == 'fillna' and any(m in TAILS for m in k['methods']) for k in calls[ci + 1:]):
+                    cls.append('edit_moves_last_valid:tail_fill_after')
+                    if ctx.dim == 1:
+                        cls.append('edit_moves_last_valid:tail_fill_after:dim=1')
+            cls.append('edit_value_to_nan' if _isnan(after[c['row']]) else 'edit_nan_to_value' if _isnan(before[c['row']]) else 'edit_value_to_value')
+            sig = lambda k: (k['fn'], k.get('methods'), k.get('limit'), k.get('edge'))
+            if any(sig(k) == sig(o) for k in calls[ci + 1:] for o in calls[:ci]):
+                cls.append('edit_then_same_call_again')
+            continue
         if c['fn'] == 'nona':
             cls += ['fn=nona', 'edge=%s' % c['edge']] + _call_classes(c)
-            nts.append(info['allnan_row'] or ctx.n == 0)
+            nts.append(_pattern_classes(ctx.cols, ctx.dim)[1]['allnan_row'] if edited else info['allnan_row'] or ctx.n == 0)
             continue
         if c.get('share') is not None:
             cls.append('same_container_again')
@@ -1013,7 +1178,7 @@ def run_session(spec):
         nts.append(nt)
         cls += ['fn=fillna'] + [k for k in ccls if k.startswith(('m=', 'limit=', 'nmethods=')) or k in (
             'run_longer_than_limit', 'tail_fill_with_trailing_run', 'rows_dropped', 'result_is_argument', 'noop_with_method', 'drop_before_fill',
-            'const_raw_numpy', 'methods_tuple', 'explicit_defaults', 'limit_raw_numpy', 'axis0_positional')]
+            'const_raw_numpy', 'methods_tuple', 'explicit_defaults', 'limit_raw_numpy', 'axis0_positional', 'last_valid_label_0')]
         limits.add(c['limit'])
         m = c['methods']
         if prev is not None:
@@ -1028,14 +1193,15 @@ def run_session(spec):
             else:
                 cls.append('rel=other')
         prev = m
-    fns = set(c['fn'] for c in calls)
+    ctx.cols = version[0]
+    fns = set(c['fn'] for c in calls if c['fn'] != 'edit')
     if len(fns) > 1:
         cls.append('fillna_and_nona_on_one_object')
     if len(limits) == 1:
         cls.append('one_limit')
     elif len(limits) > 1:
         cls.append('several_limits')
-    return dict(nt=sum(bool(x) for x in nts) >= 1 and len(calls) >= 2, cls=sorted(set(cls)))
+    return dict(nt=sum(bool(x) for x in nts) >= 1 and ncalls >= 2, cls=sorted(set(cls)))
 
 
 # ----------------------------------------------------------------------------- sub-check const_limit
@@ -1079,6 +1245,7 @@ def run_const_limit(spec):
                           what, i, j, a)
         if kind != 'arr':
             check(list(res.index) == _labels(kind, n, spec), '%s: index changed to %s', what, list(res.index))
+            _check_zone(what, x, res)
             if dim == 2:
                 check(list(res.columns) == list(x.columns), '%s: columns changed from %s to %s', what, list(x.columns), list(res.columns))
         _unchanged(what, x, before, parents, pbefore)
@@ -1094,7 +1261,7 @@ def run_const_limit(spec):
     pcls, info = _pattern_classes(cols, dim)
     nnan = sum(1 for c in cols for v in c if _isnan(v))
     left = sum(1 for c in results[ref] for v in c if _isnan(v))
-    cls = ['dim=%i' % dim, 'limit=%s' % limit, 'nmethods=%i' % len(methods)] + [k for k in pcls if k in ('empty', 'all_nan', 'no_nan', 'rows>=64', 'allnan_row_2d')]
+    cls = ['dim=%i' % dim, 'limit=%s' % limit, 'nmethods=%i' % len(methods)] + [k for k in pcls if k in ('empty', 'all_nan', 'no_nan', 'rows>=64', 'allnan_row_2d', 'near_equal_column')]
     cls += _object_classes(spec, dim) + _call_classes(spec)
     if len(methods) == 1:
         cls.append('single_constant_bare' if spec.get('bare') else 'single_constant_in_list')
@@ -1116,6 +1283,9 @@ def run_const_limit(spec):
 
 _VAL = st.sampled_from([float(i) for i in range(1, 10)] * 2 + [0.0, -0.0, -1.5, 2.5, 1e300, 5e-324, 9007199254740993.0, 'inf', '-inf'])
 _CONST = st.sampled_from([0, 1, -2, 0.0, 2.5, 7.0])
+# class 27: values that differ by less than rtol 1e-5 (a level moving by a fraction of a tick) / all within atol 1e-8 of one another and of 0 (weights of order 1e-9)
+_NEAR = {'unit': [1.0, 1.000000001, 0.999999999, 1.0000001], 'tick': [100.25, 100.2500001, 100.25000001], 'tiny': [1e-9, -1e-9, 2e-9, 1e-9]}
+_FAMILY = st.sampled_from([None] * 21 + ['unit', 'tick', 'tiny'])
 _STEP = st.sampled_from(['ffill', 'bfill', 'nona', 'fnna'])
 LONG_SIZES = [64, 65, 100, 128, 200, 257]
 _LONG_RUNS = [1, 2, 3, 5, 16, 31, 32, 33, 63, 64, 65, 100, 130]
@@ -1144,8 +1314,11 @@ _IX_CAL = [dict(type='dt', base=_BOUNDARY_DAYS[0], pattern=[1]), dict(type='dt',
 # decreasing / zig-zag labels: only for calls that do not compare labels (no ffill_na / ffill_0, no edge), see ASSUMPTIONS
 _IX_UNSORTED = [dict(type='int', base=10, pattern=[-1]), dict(type='int', base=3, pattern=[-2, 3, -3, 4]), dict(type='dt', base=40, pattern=[-1]),
                 dict(type='dt', base=5, pattern=[2, -1]), dict(type='float', base=9, pattern=[-1, 0])]
+# class 21: zone-aware stamps (appended to the pool: the session generator slices the pool by position)
+_IX_TZ = [dict(type='dt', base=2, pattern=[1, 3, 7], tz='Asia/Tokyo'), dict(type='dt', base=_BOUNDARY_DAYS[5], pattern=[1], tz='Etc/GMT+5'),
+          dict(type='dt', base=_BOUNDARY_DAYS[0], pattern=[7, 0, 5], unit='h', tod=64800, tz='Asia/Kolkata'), dict(type='dt', base=40, pattern=[-1], tz='Asia/Tokyo')]
 _IX = _IX_SORTED                                              # (name kept: the pool of the first version)
-_IX_POOL = _IX_SORTED * 2 + _IX_NUM + _IX_CAL + _IX_UNSORTED
+_IX_POOL = _IX_SORTED * 2 + _IX_NUM + _IX_CAL + _IX_UNSORTED + _IX_TZ
 _VIEWS = [None] * 8 + ['strided', 'strided', 'fortran', 'readonly']
 _RAWTAG = st.sampled_from(['i64', 'f64', 'i32', 'f32', 'float', 'int', None])
 _ONE_IN_6 = st.sampled_from([False] * 5 + [True])         # (hypothesis favours the first element: the plain spelling comes first)
@@ -1159,7 +1332,8 @@ def _vector(draw, max_runs):
     isn = draw(st.booleans())
     lens = draw(st.lists(st.sampled_from([0, 1, 1, 2, 2, 3, 4]), min_size=nruns, max_size=nruns))
     nvals = sum(ln for k, ln in enumerate(lens) if (k % 2 == 0) != isn)
-    vals = draw(st.lists(_VAL, min_size=nvals, max_size=nvals))
+    family = draw(_FAMILY)                                   # class 27: one vector in eight holds values that np.isclose takes for equal
+    vals = draw(st.lists(_VAL if family is None else st.sampled_from(_NEAR[family]), min_size=nvals, max_size=nvals))
     out = []
     for ln in lens:
         for _ in range(ln):
@@ -1299,6 +1473,11 @@ def _fillna_case(draw, tier):
     ix = dict(draw(st.sampled_from(_IX_POOL)))
     if any(m in TAILS for m in methods):
         ix = _label_ix(ix)
+        if not long and draw(_ONE_IN_6):
+            # class 29: the last valid observation of the first column is its FIRST row (label 0 on the array and the RangeIndex object), NaN after it
+            first = _expand(cols[0])
+            k = max(len(first), 2)
+            cols = [[draw(_VAL)] + [None] * (k - 1)] + [([c[0]] if len(c) else [None]) + ([None] * (k - 1) if draw(st.booleans()) else (list(c[1:]) + [None] * k)[:k - 1]) for c in cols[1:]]
     spec = dict(cols=cols, dim=dim, methods=methods, bare=bare, limit=limit, kinds=['arr', 'range', 'dt', 'ix'], ix=ix)
     if dim == 2:
         names = draw(st.sampled_from(_COLNAMES))
@@ -1455,7 +1634,32 @@ def _session_case(draw, tier):
     view = draw(st.sampled_from(_VIEWS))
     if view:
         spec['view'] = view
+    ecols = [_expand(c) for c in cols][:1 if dim == 1 else None]
+    n = len(ecols[0])
+    if view in ('strided', 'fortran'):
+        if draw(st.booleans()):
+            spec['twin'] = draw(st.sampled_from(['after', 'before']))     # class 25
+    elif view is None and n and draw(st.booleans() if dim == 1 and labels else _ONE_IN_4):
+        # class 28: the caller writes one cell of its operands in place, then makes one of the earlier calls again (the same container for df_fillna)
+        j = draw(st.integers(0, len(ecols) - 1))
+        col = ecols[j]
+        valid = [i for i, v in enumerate(col) if not _isnan(v)]
+        tails = [i for i, c in enumerate(calls) if c['fn'] == 'fillna' and any(m in TAILS for m in c['methods'])]
+        k = draw(st.sampled_from(tails * 3 + list(range(len(calls)))))           # a call that reads "the last valid observation" is made again more often
+        mode = draw(st.sampled_from(['last_valid_to_nan', 'trailing_nan_to_value'] * (3 if k in tails else 1) + ['any', 'any']))
+        if mode == 'last_valid_to_nan' and valid:
+            row, value = valid[-1], None
+        elif mode == 'trailing_nan_to_value' and (not valid or valid[-1] < n - 1):
+            row, value = draw(st.integers(valid[-1] + 1 if valid else 0, n - 1)), draw(_VAL)
+        else:
+            row = draw(st.integers(0, n - 1))
+            value = None if not _isnan(col[row]) and draw(st.booleans()) else draw(_VAL)
+        again = dict(calls[k]) if calls[k]['fn'] == 'nona' else fill_call(calls[k]['methods'], calls[k]['limit'], share=k)
+        calls.append(dict(fn='edit', row=row, col=j, value=value))
+        calls.append(again)
     for c in calls:
+        if c['fn'] == 'edit':
+            continue
         if c['fn'] == 'nona':
             k = list(kinds)
             if c['edge'] is not None and 'K4' in EXCLUDED:
@@ -1517,7 +1721,9 @@ SUBS = [
              'integers, floats, integers beyond 2**53. One case in five has operands that are views (strided / transposed / read-only arrays, columns cut out of a '
              'wider frame): the objects they are cut from must stay bit-identical too. Spelling of the call: constants as numpy float64/float32/int64/int32 or the '
              'other python type (also one constant twice in two raw types), limit as a numpy integer, the method list as a tuple, all-keyword and two-argument '
-             'calls; the ONE method container is passed to the calls on all four objects. Oracle: NaN-run walker per column (fill iff a source '
+             'calls; the ONE method container is passed to the calls on all four objects. Classes 21-29: the fourth object also with a zone-aware DatetimeIndex (Tokyo, GMT+5, '
+             'Kolkata: the result must keep labels and zone), one vector in eight with values closer than the np.isclose tolerances, and under ffill_na / ffill_0 one case in six '
+             'whose only observation of the first column is its first row (last valid label 0). Oracle: NaN-run walker per column (fill iff a source '
              'lies within limit, nothing else changes), all-NaN-row dropping with index labels, array == .values of pandas result, arguments bit-identical '
              'afterwards. non-trivial = a NaN run longer than limit under a fill, or a trailing run under '
              'ffill_na/ffill_0, or an all-NaN row in a frame, or empty / all-NaN input; distinct = distinct spec',
@@ -1537,7 +1743,10 @@ SUBS = [
                                  'view_input': 0.062, 'view=strided': 0.033, 'view=fortran': 0.016, 'view=readonly': 0.012, 'ix_unsorted': 0.0096,
                                  'ix_decreasing': 0.0032, 'ix_float': 0.015, 'ix_int>2**53': 0.0074, 'ix_intraday': 0.023, 'ix_microseconds': 0.0084,
                                  'ix_starts_on_boundary_day': 0.041, 'cols_float': 0.0098, 'cols_numbers_only': 0.046, 'cols_number>2**53': 0.0096,
-                                 'drop_before_fill': 0.049, 'drop_before_limited_fill:rows_dropped': 0.008, 'one_container_several_calls': 0.28}),
+                                 'drop_before_fill': 0.049, 'drop_before_limited_fill:rows_dropped': 0.008, 'one_container_several_calls': 0.28,
+                                 # classes 21-29 of the builder brief (floors: a third of the rate over seeds 1-3)
+                                 'ix_zone_aware': 0.019, 'near_equal_column': 0.015, 'near_equal_column_with_nan': 0.015,
+                                 'last_valid_label_0': 0.014, 'last_valid_label_0:ffill_0': 0.006}),
     Sub('nona_fn', _nona_case, run_nona, quick=1200, thorough=4000,
         rule='the same vectors / frames / index and column variants / views through nona(x) (edge None on every object; edge 1 / -1 on the pandas objects with unique '
              'increasing labels), the default value also spelled out (positional float nan, value=np.nan, np.float64 nan). Oracle: exactly the all-NaN rows go (edge 1: only those after the last valid row, edge -1: only those before the first), labels kept, '
@@ -1548,7 +1757,9 @@ SUBS = [
                                  'explicit_defaults': 0.04, 'style=value_pos': 0.013, 'style=value_kw': 0.015, 'style=value_f64': 0.0089,
                                  'view_input': 0.058, 'view=strided': 0.029, 'view=fortran': 0.012, 'view=readonly': 0.0092, 'ix_unsorted': 0.014,
                                  'ix_float': 0.011, 'ix_int>2**53': 0.0067, 'ix_intraday': 0.017, 'ix_starts_on_boundary_day': 0.033,
-                                 'cols_numbers_only': 0.041}),
+                                 'cols_numbers_only': 0.041,
+                                 # classes 21-29 of the builder brief (floors: a third of the rate over seeds 1-3)
+                                 'ix_zone_aware': 0.011, 'near_equal_column': 0.015}),
     Sub('const_limit', _const_limit_case, run_const_limit, quick=1200, thorough=3000,
         rule='the same vectors / frames / index and column variants / views / spellings (numpy constants and limits, tuple, keywords) with a numeric constant under limit 1/2/3 - alone (bare or in a list) or in a list of 2-3 '
              'with ffill/bfill/other constants. Oracle (deliberately not: which NaN get filled): the ndarray result equals the .values of all three pandas '
@@ -1559,14 +1770,18 @@ SUBS = [
                                  # classes 11-20 of the builder brief (floors: a third of the rate over seeds 1-3)
                                  'const_raw_numpy': 0.035, 'const_raw_numpy_int': 0.015, 'one_constant_two_raw_types': 0.01,
                                  'limit_raw_numpy': 0.038, 'methods_tuple': 0.024, 'explicit_defaults': 0.034, 'view_input': 0.066,
-                                 'ix_unsorted': 0.021, 'ix_intraday': 0.024}),
+                                 'ix_unsorted': 0.021, 'ix_intraday': 0.024,
+                                 # classes 21-29 of the builder brief (floors: a third of the rate over seeds 1-3)
+                                 'ix_zone_aware': 0.02, 'near_equal_column': 0.018}),
     Sub('session', _session_case, run_session, quick=900, thorough=3000,
         rule='state between calls: the four objects of a case are built ONCE and 2-4 calls are made on them (two sessions in three: all calls on one object, then all on the next; else call by call over the objects) - df_fillna with a method list, '
              'then with a prefix / an extension by one step / a permutation of the previous list or the very same container object again (under the same or another '
              'limit, positional / keyword / two-argument call), and nona(x, edge) in between; three sessions in four keep one limit. Every call is judged by the '
              'single-call oracles of fillna / nona_fn from the ORIGINAL content of the spec (a callee that writes into the caller\'s list shows in the next call), '
              'operands and the objects they are cut from are compared with their snapshots after every call, and at the end every result still holds the values it '
-             'held when it was returned. non-trivial = at least one call is non-trivial by the rule of its single-call sub-check',
+             'held when it was returned. One session in six (operands that are not views): the caller writes one cell of every operand in place (often the last valid cell -> NaN or '
+             'a trailing NaN -> value) and makes one of the earlier calls again, judged by the edited cells. Half of the strided / transposed view sessions: every array call is also '
+             'made on a twin view (same start address, shape, dtype; other strides, other cells). non-trivial = at least one call is non-trivial by the rule of its single-call sub-check',
         floor=0.3, class_floors={
                                  # classes 11-20 of the builder brief (floors: a third of the rate over seeds 1-3)
                                  'order=by_object': 0.15, 'order=by_call': 0.08, 'calls=2': 0.15, 'calls=3': 0.11, 'calls=4': 0.05, 'rel=prefix': 0.12, 'rel=extension': 0.081,
@@ -1578,7 +1793,12 @@ SUBS = [
                                  'rows_dropped': 0.099, 'const_raw_numpy': 0.029, 'methods_tuple': 0.043, 'explicit_defaults': 0.087,
                                  'ix_unsorted': 0.015, 'ix_duplicate_labels': 0.032, 'noop_with_method': 0.07, 'drop_before_fill': 0.092,
                                  'rows>=64': 0.039, 'empty': 0.021, 'all_nan': 0.016, 'nmethods=0': 0.081, 'limit_raw_numpy': 0.033,
-                                 'axis0_positional': 0.2}),
+                                 'axis0_positional': 0.2,
+                                 # classes 21-29 of the builder brief (floors: a third of the rate over seeds 1-3)
+                                 'ix_zone_aware': 0.012, 'near_equal_column': 0.028, 'twin_view': 0.018, 'twin_view=strided': 0.012, 'twin_view=fortran': 0.006,
+                                 'twin_view_other_cells': 0.012, 'edit_between_calls': 0.033, 'edit_moves_last_valid': 0.018,
+                                 'edit_then_same_call_again': 0.033, 'edit_moves_last_valid:tail_fill_after': 0.009,
+                                 'edit_moves_last_valid:tail_fill_after:dim=1': 0.004, 'edit_value_to_nan': 0.013, 'edit_nan_to_value': 0.013}),
     EnumSub('vec_enum', enum_vectors, run_fillna, thorough_only=True, chunks=64,
             rule='every NaN pattern of every vector length 0-%i (position-coded values) x every program: 7 single methods, 25 ordered pairs of '
                  'ffill/bfill/constant/nona/fnna, 10 pairs headed by ffill_na/ffill_0, x limit None/1/2/3 (constant only with None); same oracle as fillna'
